@@ -1,7 +1,20 @@
------------------------------- MODULE FX ------------------------------
-(* Prototype transcription of forexpand.go (as it is today) + Tokens() consumer *)
-EXTENDS Integers, Sequences, FiniteSets, TLC
-CONSTANTS L, FIXED      \* max input length (excluding terminator); FIXED = TRUE models the planned fix
+------------------------------ MODULE Pipeline ------------------------------
+(***************************************************************************)
+(* The FOR expander of the assembler as a two-process protocol: a PRODUCER  *)
+(* (one TLA+ case per forStateFn of forexpand.go, over token CLASSES) that  *)
+(* sends tokens over an unbuffered channel, and the CONSUMER loop of        *)
+(* Tokens().  FIXED = TRUE is the protocol of the repaired code (producer   *)
+(* closes the channel, consumer drains it); FIXED = FALSE is the protocol   *)
+(* of the pinned tree, kept to show what TLC reports for it (NoLeak is      *)
+(* violated after 5 states on `for <Error>`).                               *)
+(*   NoLeak      the consumer never returns while the producer is blocked   *)
+(*   Shape       the output ends with exactly one EOF/Error, which is last  *)
+(*   Terminates  <>(consumer returned /\ producer exited)   (weak fairness) *)
+(*   Emit        prints every input with the output the spec determines -   *)
+(*               these cases are replayed through the real ForExpand (C05)  *)
+(***************************************************************************)
+EXTENDS Integers, Sequences, FiniteSets, TLC, Json
+CONSTANTS L, FIXED, EMIT, FAMILY     \* L = max input length (excluding terminator); FAMILY = "all" | "block"
 
 T(t, v) == [t |-> t, v |-> v]
 Alphabet == { T("lbl","c"), T("lbl","x"), T("for",0), T("rof",0), T("op",0), T("pseudo",0),
@@ -108,9 +121,22 @@ Step(q) ==
 P0 == [st |-> "forLine", ip |-> 1, tok |-> T("eof",0), eofF |-> FALSE, lb |-> << >>, eb |-> << >>,
        cl |-> "", ll |-> << >>, tw |-> 0, fc |-> 0, cont |-> << >>, depth |-> 0]
 
-Inputs == UNION { [1..n -> Alphabet] : n \in 1..L }
-Init == /\ in \in { s \o <<e>> : s \in Inputs, e \in Term }
-        /\ p = Nx(P0) /\ outbox = << >> /\ out = << >> /\ cdone = FALSE /\ pdone = FALSE /\ closedCh = FALSE
+\* no two adjacent number tokens (their texts would be concatenated by the real evaluator: "0" "2" reads as 02)
+NoAdjNums(s) == \A i \in 1..Len(s)-1 : ~(s[i].t = "num" /\ s[i+1].t = "num")
+Inputs(m) == { s \in UNION { [1..n -> Alphabet] : n \in 0..m } : NoAdjNums(s) }
+\* family "block": well-formed-ish blocks  <labels> for <count> NL <body of <= L tokens> rof NL <post>, so that real
+\* expansions (counter substitution, renamed line labels, nested for/rof) are reached with short bodies
+Seqs(A, n) == UNION { [1..k -> A] : k \in 0..n }
+BodyAlphabet == { T("lbl","c"), T("lbl","x"), T("for",0), T("rof",0), T("op",0), T("nl",0), T("num",2), T("cmt",0), T("colon",0) }
+BlockInputs(n) == { pre \o <<T("for",0)>> \o cnt \o <<T("nl",0)>> \o body \o <<T("rof",0)>> \o post :
+                   pre \in {<< >>, <<T("lbl","c")>>, <<T("lbl","x"), T("lbl","c")>>},
+                   cnt \in {<<T("num",0)>>, <<T("num",2)>>, <<T("lbl","c")>>},
+                   body \in { b \in Seqs(BodyAlphabet, n) : NoAdjNums(b) },
+                   post \in {<< >>, <<T("nl",0)>>, <<T("nl",0), T("op",0)>>, <<T("cmt",0)>>} }
+\* (operators with a parameter: TLC evaluates parameterless constant definitions eagerly at start-up)
+InputSet(m) == IF FAMILY = "block" THEN BlockInputs(m) ELSE Inputs(m)
+Init == /\ \E s \in InputSet(L), e \in Term : in = s \o <<e>>
+        /\ p = (LET q == Nx(P0) IN IF q.eofF THEN St(q, "nil") ELSE q) /\ outbox = << >> /\ out = << >> /\ cdone = FALSE /\ pdone = FALSE /\ closedCh = FALSE
 
 \* producer computes next state function when its outbox is empty
 Compute == /\ ~pdone /\ outbox = << >> /\ p.st \notin {"nil", "extra"}
@@ -144,4 +170,5 @@ NoLeak == ~(cdone /\ ~pdone /\ outbox # << >>)      \* consumer gone, producer b
 Shape  == cdone => /\ out # << >> /\ out[Len(out)].t \in {"eof","err"}
                    /\ \A i \in 1..Len(out)-1 : out[i].t \notin {"eof","err"}
 Terminates == <>(cdone /\ pdone)
+Emit == (EMIT /\ cdone /\ pdone) => PrintT(<<"CASE", ToJson([in |-> in, out |-> out])>>)
 =============================================================================
